@@ -68,6 +68,10 @@ class Check:
         n = rnd.choice([8, 20, 40, 80, 120]) if tier == 'quick' else rnd.choice([8, 20, 50, 120, 250, 400])
         world = W.gen_world(rnd, n, allow_kicks=True, magnitudes=rnd.choice(['nominal', 'nominal', 'unit', 'decades']))
         kinds = rnd.sample(['glitch', 'scale', 'stuck', 'dup'], rnd.randint(0, 4))
+        if rnd.random() < 0.15:
+            kinds.append('dropout')         # batch and stream must also agree on how a zeroed sample is handled
+        if rnd.random() < 0.1:
+            kinds.append('nan')             # ... and on a sensor that emits NaN
         if kinds:
             world['faults'] = W.gen_faults(rnd, world, kinds, max_faults=4)
         pool = [k for k in POOL for _ in range(WEIGHT.get(k, 2))]
@@ -75,6 +79,8 @@ class Check:
         for _ in range(rnd.randint(2, 5)):
             kind = rnd.choice(pool)
             consumers.append({'kind': kind, 'params': C.gen_params(rnd, kind)})
+            if rnd.random() < 0.2 and C.KINDS[kind].streaming:
+                consumers[-1]['stride'] = rnd.choice([2, 3])        # a subscriber running at a lower rate
         # sometimes a second instance of the same class sharing its parameter arrays
         if rnd.random() < 0.4:
             src = rnd.choice(consumers)
@@ -82,6 +88,8 @@ class Check:
             if rnd.random() < 0.7:
                 gid = rnd.randrange(1000)
                 src['share'] = twin['share'] = gid
+            if rnd.random() < 0.5 and C.KINDS[twin['kind']].streaming:
+                twin['stride'] = rnd.choice([s for s in (1, 2, 3) if s != src.get('stride', 1)])   # same class, other rate
             consumers.append(twin)
         return {'world': world, 'consumers': consumers, 'sched_seed': rnd.randrange(1 << 30),
                 'lag_bound': rnd.choice([1, 2, 4, 8]), 'starve': rnd.choice([None, None, 0, 1]),
@@ -115,21 +123,27 @@ class Check:
             p.update(own_cfg[task.idx])
             return p
 
-        # 1. reference: batch constructor, solo, private copies, per-task RNG seed
+        # 1. reference: batch constructor, solo, private copies (decimated to the task's own rate), per-task RNG seed
+        def own_history(t):
+            st = getattr(t, 'stride', 1)
+            return pristine['gyr'][::st].copy(), pristine['acc'][t.key][::st].copy(), pristine['mag'][t.key][::st].copy()
+
         refs, q_inits = [], []
         for t in pipe.tasks:
             s_i = (scn['rng_seed'] * 31 + t.idx * 7919 + 17) & 0x7FFFFFFF
             np.random.seed(s_i)
-            b, _ = K.run_batch(t.kind, own_params(t), hist.dt, dip, pristine['gyr'].copy(),
-                               pristine['acc'][t.key].copy(), pristine['mag'][t.key].copy())
+            n_own = getattr(t, 'n_own', hist.n)
+            dt_own = getattr(t, 'dt', hist.dt)
+            g_, a_, m_ = own_history(t)
+            b, _ = K.run_batch(t.kind, own_params(t), dt_own, dip, g_, a_, m_)
             if scn.get('repeat_batch'):
                 np.random.seed(s_i)
-                b2, _ = K.run_batch(t.kind, own_params(t), hist.dt, dip, pristine['gyr'].copy(),
-                                    pristine['acc'][t.key].copy(), pristine['mag'][t.key].copy())
+                g_, a_, m_ = own_history(t)
+                b2, _ = K.run_batch(t.kind, own_params(t), dt_own, dip, g_, a_, m_)
                 if not CM.same_bits(b, b2):
                     viol.append(self._v(t, 'batch-not-repeatable', 0, 'two solo batch runs on equal inputs (same NumPy seed) differ'))
             refs.append((b, s_i))
-            if isinstance(b, np.ndarray) and t.kind.recursive and b.ndim == 2 and len(b) == hist.n:
+            if isinstance(b, np.ndarray) and t.kind.recursive and b.ndim == 2 and len(b) == n_own:
                 q_inits.append(b[0].copy())
             elif t.kind.recursive:
                 # the batch constructor raised: its Q[0] is only known when the configuration fixes it (q0=...)
@@ -142,8 +156,8 @@ class Check:
                     t.incomparable = True
             else:
                 q_inits.append(None)
-            if isinstance(b, np.ndarray) and len(b) != hist.n:
-                viol.append(self._v(t, 'length-mismatch', 0, f'batch returned {len(b)} attitudes for {hist.n} samples'))
+            if isinstance(b, np.ndarray) and len(b) != n_own:
+                viol.append(self._v(t, 'length-mismatch', 0, f'batch returned {len(b)} attitudes for {n_own} samples'))
 
         # 2. the interleaved streaming simulation on the shared bus
         boot.seed_library_rng(scn['rng_seed'])
@@ -220,7 +234,7 @@ class Check:
         return f'{d(a)} vs {d(b)}'
 
     def _refine(self, viol, t, out, b, stats):
-        n = t.hist.n
+        n = getattr(t, 'n_own', t.hist.n)
         if isinstance(b, K.Crash) or isinstance(b, K.Refusal):
             stats['batch_raised'] = stats.get('batch_raised', 0) + 1
             if getattr(t, 'incomparable', False):
@@ -228,7 +242,9 @@ class Check:
             # the batch constructor rejected/crashed on this history: the stream must fail the same way somewhere
             kinds = {type(o).__name__ + ':' + getattr(o, 'etype', '') for o in out if isinstance(o, (K.Crash, K.Refusal))}
             want = type(b).__name__ + ':' + getattr(b, 'etype', '')
-            if want not in kinds:
+            # a single-frame estimator that answers None for a sample it cannot use has refused it too
+            declined = (not t.kind.recursive) and isinstance(b, K.Refusal) and any(o is None for o in out[t.first:t.pos])
+            if want not in kinds and not declined:
                 viol.append(self._v(t, 'batch-raises', 0, f'batch constructor raised {self._diff(b, None)} but streaming the same samples did not'))
             return
         if not isinstance(b, np.ndarray) or len(b) != n:
@@ -254,14 +270,15 @@ class Check:
 
     def _solo(self, t, p, hist, pristine, dip, q0, seed=None, rng_states=None):
         """Re-execute task t's stream alone on private copies of its history."""
-        gyr = pristine['gyr'].copy()
-        acc = pristine['acc'][t.key].copy()
-        mag = pristine['mag'][t.key].copy()
-        out = [None] * hist.n
+        st = t.stride
+        gyr = pristine['gyr'][::st].copy()
+        acc = pristine['acc'][t.key][::st].copy()
+        mag = pristine['mag'][t.key][::st].copy()
+        out = [None] * t.n_own
         try:
-            inst = t.kind.make(p, hist.dt, dip)
+            inst = t.kind.make(p, t.dt, dip)
         except Exception as e:      # noqa: BLE001
-            return [K.Crash(e)] * hist.n
+            return [K.Crash(e)] * t.n_own
         q = None if q0 is None else np.array(q0, dtype=float)
         if seed is not None:
             np.random.seed(seed)
@@ -272,10 +289,10 @@ class Check:
             a = acc[k] if 'a' in t.kind.sensors else None
             m = mag[k] if 'm' in t.kind.sensors else None
             try:
-                r = K.out_to_array(t.kind.step(inst, p, q, g, a, m, C.call_dt(p, hist.dt)))
-                out[k] = r
+                r = t.kind.step(inst, p, q, g, a, m, C.call_dt(p, t.dt))
+                out[k] = K.out_to_array(r)
                 if r is not None and t.kind.recursive:
-                    q = r
+                    q = r if isinstance(r, np.ndarray) else out[k]
             except np.linalg.LinAlgError as e:
                 out[k] = K.Crash(e)
                 if t.kind.recursive:
@@ -299,7 +316,7 @@ class Check:
         return {
             'lists': [('consumers',), ('world', 'faults'), ('world', 'segments')],
             'ints': [(('world', 'segments', '*', 'len'), 1), (('world', 'faults', '*', 'len'), 1), (('lag_bound',), 1)],
-            'resets': [(('starve',), None), (('repeat_batch',), False),
+            'resets': [(('starve',), None), (('repeat_batch',), False), (('consumers', '*', 'stride'), 1),
                        (('world', 'noise'), {'acc': 0.0, 'mag': 0.0, 'gyr': 0.0}),
                        (('world', 'g'), 9.81), (('world', 'mscale'), 50.0), (('world', 'dt'), 0.01),
                        (('consumers', '*', 'share'), SHRINK_DELETE),
